@@ -183,6 +183,12 @@ def lean_str(s: str) -> str:
     return "".join(out)
 
 
+def lean_name(s: str) -> str:
+    """A `Name` literal (LspVerif.Core.Name): 0x01 followed by the UTF-8 bytes, as a hex numeral."""
+    tag = re.sub(r"[^A-Za-z0-9_.$ ]", "?", s)[:40]
+    return "(0x01" + s.encode("utf-8").hex() + " /- " + tag + " -/)"
+
+
 def lean_int(i: int) -> str:
     return str(i) if i >= 0 else f"({i})"
 
